@@ -38,6 +38,14 @@ CHECKS = [
          text="Chain of three, parent with two children, parent-child with crashes: shutdown of the root interleaved with children stopping, crashing and third-party poison; Children(), Parent(), registry look-ups of all descendants and done contexts are observed inside every delivery.",
          note="as C04; trees up to depth 3 / fan-out 2",
          ref="4/C08"),
+    dict(id="C09", engine="event-scenario", technique="TLC exhaustive on EventStream.tla + B-scenario: every maximal operation sequence exported by TLC with the per-subscriber logs it computed, replayed on a real engine (cmd/evscen)",
+         text="EventStream.tla models the stream actor's Receive one message per step together with the dead-letter path of SendLocal and the missing-remote path of send; TLC enumerates all sequences of subscribe / unsubscribe / broadcast / subscriber-stops / send to nil, never spawned, stopped and foreign targets with nil and non-nil senders, checks finiteness (no dead-letter chains; liveness: the stream's inbox drains) and computes what every subscriber must see; each sequence is executed on a real engine and every subscriber's recorded log of DeadLetterEvent / EngineRemoteMissingEvent (target, message id, sender) must equal TLC's. A send that blocks, or events that keep flowing after the last operation, are violations.",
+         note="<= 4 (quick) / 5 (thorough) operations, 2 subscribers, one stopped-but-subscribed actor at a time; operations issued from one driver goroutine at quiescence",
+         ref="4/C09"),
+    dict(id="C12", engine="event-scenario", technique="TLC exhaustive on EventStream.tla + B-scenario replay (cmd/evscen); lifecycle events: published events of the Actor.tla scenarios compared with the model's (cmd/actorscen)",
+         text="All sequences of Subscribe / Unsubscribe (with the subscribed PID object or an equal copy) and BroadcastEvent from two broadcaster goroutines over two subscribers are enumerated by TLC, which checks got = want for the abstract by-value subscription and exports the expected per-subscriber logs; each sequence is replayed on a real engine and the recorded logs must be equal (exactly once, broadcast order, nothing after Unsubscribe, no duplicates on double Subscribe). The engine's own lifecycle events are checked on the steered Actor.tla scenarios: the multiset of started / stopped / restarted / max-restarts / dead-letter events seen by a subscribed monitor must equal the model's.",
+         note="sequenced broadcasters (issue order = inbox order); <= 4/5 operations; lifecycle part restricted to steered, non-racy scenarios",
+         ref="4/C12"),
     dict(id="C13", engine="actor-scenario", technique="TLC exhaustive on Actor.tla (per-call-site chain bit) + B-scenario replay with recording middleware chains of length 0..3",
          text="Every delivery of every behaviour (spawn, user, stop, poison, crash recover, restart, budget exhausted) must have passed through the configured chain exactly once, in order; checked by TLC on the recorded histories.",
          note="as C04; chain lengths 0..3 rotate over scenarios",
@@ -94,6 +102,8 @@ def main():
              "kind_free_text": "TLC state graph of Inbox.tla replayed edge by edge on the real Inbox through gate shims (B-graph)"},
             {"name": "actor-scenario", "path": "harness/cmd/actorscen", "serves_properties": ["C04", "C05", "C06", "C07", "C08", "C13"],
              "kind_free_text": "TLC behaviours of Actor.tla replayed on the real engine with gated deliveries; histories validated by TLC against ActorProps.tla (B-scenario)"},
+            {"name": "event-scenario", "path": "harness/cmd/evscen", "serves_properties": ["C09", "C12"],
+             "kind_free_text": "operation sequences of EventStream.tla replayed on a real engine with recording subscribers (B-scenario)"},
             {"name": "wire-table", "path": "harness/cmd/wiretable", "serves_properties": ["C15", "C16"],
              "kind_free_text": "cases enumerated by TLC from Wire.tla executed on the real stream writer / reader (B-table)"},
             {"name": "ring-table", "path": "harness/cmd/ringtable", "serves_properties": ["C14"],
